@@ -869,7 +869,7 @@ pub fn scenario_shape(tier: &str, base_seed: u64, g: u64) -> Scenario {
             }
         }
     };
-    let classes = ["code", "code", "code+eeprom", "code+eeprom", "eeprom-only", "empty", "comments", "fail", "fail", "missing", "part-file", "part-file", "shadowed-part-file", "local-include", "large", "large", "gen-any", "not-utf8", "source-is-directory", "no-source-option", "unknown-option"];
+    let classes = ["code", "code", "code+eeprom", "code+eeprom", "eeprom-only", "empty", "comments", "fail", "fail", "missing", "part-file", "part-file", "shadowed-part-file", "patterned-data", "local-include", "large", "large", "gen-any", "not-utf8", "source-is-directory", "no-source-option", "unknown-option"];
     let mut class = classes[r.usize(classes.len())].to_string();
     if tier == "thorough" && r.chance(1, 60) {
         class = "huge".into();
@@ -903,6 +903,29 @@ pub fn scenario_shape(tier: &str, base_seed: u64, g: u64) -> Scenario {
             };
             sc.files.insert(format!("{}{}", place, p), format!(".equ RAMEND = {}\n.equ SPL = 0x3d\n.device ATmega8\n", 0x100 + r.below(0x300)));
             Some(format!(".include \"{}\"\n    ldi r16, low(RAMEND)\n    ldi r17, high(RAMEND)\n    out SPL, r16\n.eseg\n.dw RAMEND\n", p))
+        }
+        // image contents that "erased", "blank" or "line end" logic would key on
+        "patterned-data" => {
+            let mut t = String::new();
+            let row = |b: &[u8]| -> String { format!(".db {}\n", b.iter().map(|x| x.to_string()).collect::<Vec<_>>().join(", ")) };
+            let pats: [&[u8]; 5] = [&[255; 16], &[0; 16], &[10, 13, 58, 26, 10, 13, 58, 26, 255, 0, 10, 10, 13, 13, 58, 58], &[255, 255, 255, 255, 255, 255, 255, 255, 255, 255, 255, 255, 255, 255, 255, 1], &[7; 16]];
+            for _ in 0..r.range(1, 4) {
+                t.push_str(&row(pats[r.usize(2)]));
+            }
+            for _ in 0..r.range(1, 6) {
+                t.push_str(&row(pats[r.usize(pats.len())]));
+            }
+            t.push_str("    ldi r16, 1\n");
+            for _ in 0..r.range(0, 3) {
+                t.push_str(&row(pats[r.usize(2)]));
+            }
+            if r.chance(1, 2) {
+                t.push_str(".eseg\n");
+                for _ in 0..r.range(1, 4) {
+                    t.push_str(&row(pats[r.usize(pats.len())]));
+                }
+            }
+            Some(t)
         }
         "local-include" => {
             let inc = format!("{}defs.inc", if srcdir.is_empty() { "".to_string() } else { format!("{}/", srcdir) });
